@@ -2,7 +2,7 @@
    The extracted OCaml driver and the in-Coq replays both call only this. *)
 From Coq Require Import List ZArith NArith Bool.
 From AG Require Import Base.Val Base.Sort Str.MetaVar Str.AnB Str.Substring
-  Rewrite.Indent Rewrite.Template.
+  Rewrite.Indent Rewrite.Template Tree.Tree Match.MatchNode.
 Import ListNotations.
 Local Open Scope Z_scope.
 
@@ -12,6 +12,30 @@ Definition g_tenv (v : val) : tenv :=
   {| e_single := gList (fun p => (gS (gNth 0 p), g_range (gNth 1 p))) (gNth 0 v);
      e_multi := gList (fun p => (gS (gNth 0 p), gList g_range (gNth 1 p))) (gNth 1 v);
      e_trans := gList (fun p => (gS (gNth 0 p), gS (gNth 1 p))) (gNth 2 v) |}.
+
+Definition FUEL_ERR : val := vErr [102;117;101;108]%N.   (* "fuel" *)
+
+Definition case_pattern_match (v : val) : val :=
+  let src := gS (gNth 0 v) in
+  let d := vdepth v in
+  let t := g_tree d (gNth 1 v) in
+  let p := g_pattern d (gNth 2 v) in
+  match pattern_match src p t empty_env with
+  | Matched e => VL [VZ 0; v_env e]
+  | Unmatched => VL [VZ 1]
+  | OutOfFuel => FUEL_ERR
+  end.
+
+Definition case_match_len (v : val) : val :=
+  let src := gS (gNth 0 v) in
+  let d := vdepth v in
+  let t := g_tree d (gNth 1 v) in
+  let p := g_pattern d (gNth 2 v) in
+  match match_len src p t with
+  | LenSome n => VL [vN n]
+  | LenNone => VL []
+  | LenFuel => FUEL_ERR
+  end.
 
 Definition run_case (fid : Z) (v : val) : val :=
   match fid with
@@ -26,5 +50,12 @@ Definition run_case (fid : Z) (v : val) : val :=
   (* 7: doc, match start, env, transform names, template -> replacement bytes *)
   | 7 => VS (generate_replacement (gS (gNth 0 v)) (gNat (gNth 1 v)) (g_tenv (gNth 2 v))
                (create_template DOLLAR (gList gS (gNth 3 v)) (gS (gNth 4 v))))
+  (* 8: insert_transformation: doc, start of the source variable's node (option), slice -> stored bytes *)
+  | 8 => VS (match gOpt gNat (gNth 1 v) with
+             | Some st => formatted_slice (gS (gNth 0 v)) st (gS (gNth 2 v))
+             | None => gS (gNth 2 v)
+             end)
+  | 10 => case_pattern_match v
+  | 11 => case_match_len v
   | _ => vErr []
   end.
